@@ -93,7 +93,16 @@ func (q *ecdsaReq) admissible() (bool, string) {
 
 // badEncodings are SignatureEncoding values that name no encoding,
 // including values whose low 8 / 16 / 32 bits look like a valid one.
-var badEncodings = []secec.SignatureEncoding{3, -1, 255, 256, 257, 258, 512, -256, -255, 65536, 65538, 1 << 32, 1<<32 + 1, -1 << 63, 1<<63 - 1, 4}
+var badEncodings = func() []secec.SignatureEncoding {
+	var out []secec.SignatureEncoding
+	for _, v := range []int64{3, -1, 255, 256, 257, 258, 512, -256, -255, 65536, 65538, 1 << 32, 1<<32 + 1, -1 << 63, 1<<63 - 1, 4} {
+		// on a 32-bit platform only the values that fit into an int
+		if int64(int(v)) == v {
+			out = append(out, secec.SignatureEncoding(int(v)))
+		}
+	}
+	return out
+}()
 
 // hashCatalogue: hash functions a caller may name in its options: several
 // with 32-byte output that are not SHA-256, longer ones, ones whose digests
@@ -770,9 +779,24 @@ func (w *World) opVariation(step int) {
 		}
 	}
 	ent := base.ent
-	what := w.t.Choose("ops", "var.what", 9)
+	what := w.t.Choose("ops", "var.what", 10)
 	if what == 8 && ent == nil {
 		what = 2
+	}
+	if what == 9 {
+		// entropy that is not independent of the other two inputs: the
+		// digest's leftmost 32 bytes, the private key's encoding, or that of
+		// its negation (an entropy stream an attacker chose, or a caller
+		// who recycles what it has)
+		switch w.t.Choose("ops", "var.corr", 3) {
+		case 0:
+			ent = append([]byte(nil), base.digest[:32]...)
+		case 1:
+			ent = append([]byte(nil), w.keys[base.key].dBytes...)
+		default:
+			ent = ref.I2OSP32(new(big.Int).Sub(ref.N, w.keys[base.key].d))
+		}
+		w.r.Fault("entropy_equal_to_another_input")
 	}
 	if what >= 5 && what < 8 && (ent == nil || len(w.keys) < 2 && what != 6) {
 		what -= 4 // the correlated changes need caller entropy (and a second key)
@@ -1007,7 +1031,23 @@ func (w *World) opSchnorrVariation(step int) {
 	}
 	base := w.schs[w.t.Choose("ops", "svar.base", len(w.schs))]
 	key, msg, aux := base.key, base.msg, append([]byte(nil), base.aux...)
-	switch w.t.Choose("ops", "svar.what", 6) {
+	switch w.t.Choose("ops", "svar.what", 7) {
+	case 6:
+		// aux randomness that is not independent of the other inputs: the
+		// private key's encoding, that of its negation, or the message
+		switch c := w.t.Choose("ops", "svar.corr", 3); {
+		case c == 0:
+			aux = append([]byte(nil), w.keys[key].dBytes...)
+		case c == 1:
+			aux = ref.I2OSP32(new(big.Int).Sub(ref.N, w.keys[key].d))
+		default:
+			aux = make([]byte, 32)
+			copy(aux, msg)
+			if len(msg) != 32 && w.t.Bool("ops", "svar.msg32") {
+				msg = append([]byte(nil), aux...)
+			}
+		}
+		w.r.Fault("entropy_equal_to_another_input")
 	case 4, 5:
 		// a strictly shorter message after a longer one, same key (a prefix
 		// of the earlier message; what the earlier call left in any buffer
